@@ -44,17 +44,17 @@ class Effect:
 
 
 class FnModel:
+    INLINE = True
+
     def __init__(self, index: RepoIndex, func: Func, roles: Sequence[str],
                  evaluator: Optional[Evaluator] = None):
         self.index = index
         self.func = func
-        from .inline import canon_calls, inlined_function
-        self.node, self.inlined = inlined_function(index, func)
-        self.node = canon_calls(index, func.module, self.node)
-        from .inline import inline_pure_exprs
-        expanded = inline_pure_exprs(index, func.module, func.cls, self.node)
-        if ast.dump(expanded) != ast.dump(self.node):
-            self.node = expanded
+        if self.INLINE:
+            from .view import component_node
+            self.node, self.inlined = component_node(index, func)
+        else:
+            self.node, self.inlined = func.node, []
         self.walk = walk_function(self.node)
         self.ren = role_rename(func.node, roles)
         self.roles = list(roles)
